@@ -405,20 +405,50 @@ def parseDFilter : SExp → Option (DFilter Float)
   | .list [.atom "override", nu, nn, cm] => do pure (.override (← parseOptStr nu) (← parseOptStr nn) (← parseCm cm))
   | _ => none
 
+def parseFillMode : String → Option FillMode
+  | "linear" => some .linear
+  | "forward" => some .forwardFill
+  | "bogus" => some .other
+  | _ => none
+
+def parseCalUnit : String → Option CalUnit
+  | "day" => some .day
+  | "week" => some .week
+  | "month" => some .month
+  | "quarter" => some .quarter
+  | "halfyear" => some .half
+  | "year" => some .year
+  | _ => none
+
+/-- the zone's offset table as it travels in the case line (the encoding of the C12 cases): the offset in effect before
+the first listed change, then `when:offset,when:offset,…` (unix seconds : seconds east of UTC) or `-` -/
+def parseZoneTr (p : String) : Option (Int × Int) :=
+  match p.splitOn ":" with
+  | [w, o] => do pure (← w.toInt?, ← o.toInt?)
+  | _ => none
+
+def parseZoneTable (init tr : String) : Option ShpanVerif.Model.Period.Zone := do
+  let init ← init.toInt?
+  let tr ← if tr == "-" then some [] else (tr.splitOn ",").mapM parseZoneTr
+  pure ⟨init, tr⟩
+
 /-- `( align pNanos )` / `( alignfill pNanos linear|forward|bogus )`: fixed period, must be positive
-(`timeseries.NewFixedAlignmentPeriod` panics otherwise; the harness refuses such a case too) -/
-def parseAlign : SExp → Option (Int × Option FillMode)
+(`timeseries.NewFixedAlignmentPeriod` panics otherwise; the harness refuses such a case too);
+`( aligncal unit 'zone init table )` / `( aligncalfill unit 'zone init table mode )`: calendar period in the zone whose
+offset table is `init table` (the harness builds the period from the zone NAME; the table is what the real zone
+answered through `ZoneBounds`) -/
+def parseAlign : SExp → Option (PeriodK × Option FillMode)
   | .list [.atom "align", .atom p] => do
     let p ← p.toInt?
-    if p ≤ 0 then none else pure (p, none)
+    if p ≤ 0 then none else pure (.fixed p, none)
   | .list [.atom "alignfill", .atom p, .atom m] => do
     let p ← p.toInt?
-    let m ← match m with
-      | "linear" => some FillMode.linear
-      | "forward" => some FillMode.forwardFill
-      | "bogus" => some FillMode.other
-      | _ => none
-    if p ≤ 0 then none else pure (p, some m)
+    let m ← parseFillMode m
+    if p ≤ 0 then none else pure (.fixed p, some m)
+  | .list [.atom "aligncal", .atom u, .atom _zone, .atom init, .atom tr] => do
+    pure (.cal (← parseCalUnit u) (← parseZoneTable init tr), none)
+  | .list [.atom "aligncalfill", .atom u, .atom _zone, .atom init, .atom tr, .atom m] => do
+    pure (.cal (← parseCalUnit u) (← parseZoneTable init tr), some (← parseFillMode m))
   | _ => none
 
 /-- `maxCounterValue`: a decimal integer (converted with `float64(int64)`) or a `d:<bits>` float64 -/
